@@ -23,9 +23,17 @@ def rev(fault=-1):
 TICK = {"kind": "tick", "listen": 0, "laddr": 0, "fault": -1, "nocode": False}
 
 
-def case(threads, sched, state="valid", qmax=50, pre=(), target=77, taddr=0, stream="structured"):
+def case(threads, sched, state="valid", qmax=50, pre=(), target=77, taddr=0, stream="structured", world=""):
+    """world "" = all callers over one memory store; "cluster" = every caller on its own node (hybrid storage with a
+    private local cache, ONE shared cache, stock hybrid.DefaultConfig routing), results observed from a further node"""
     return {"qmax": qmax, "pre": [list(p) for p in pre], "state": state, "target": target, "taddr": taddr,
-            "threads": threads, "sched": list(sched), "stream": stream}
+            "threads": threads, "sched": list(sched), "stream": stream, "world": world}
+
+
+def on_cluster(c):
+    d = dict(c)
+    d["world"] = "cluster"
+    return d
 
 
 # the witness of DESIGN.md C06: both callers read the code before either writes it
@@ -39,6 +47,13 @@ WITNESSES = [
     # revoke racing an activation
     case([act(101, 0), rev()], [0, 1, 1, 1, 1]),
     case([rev(), act(101, 0)], [0, 1, 1, 0]),
+    # two nodes: node 0 is parked right after its claim while node 1 runs to completion (and the mirror image,
+    # and node 0 parked right BEFORE its claim)
+    case([act(101, 0), act(102, 1)], [0] * 4 + [1] * 12, world="cluster"),
+    case([act(101, 0), act(102, 1)], [1] * 4 + [0] * 12, world="cluster"),
+    case([act(101, 0), act(102, 1)], [0] * 3 + [1] * 12, world="cluster"),
+    case([act(101, 0), act(101, 2)], [0] * 4 + [1] * 12, world="cluster"),
+    case([act(101, 0), rev()], [0] * 3 + [1] * 4 + [0] * 12, world="cluster"),
     # activation across the end of the activation period
     case([act(101, 0), TICK], [0, 0, 0, 0, 1]),
     case([act(101, 0), TICK, act(102, 1)], [0, 0, 0, 0, 0, 0, 0, 2, 2, 1]),
@@ -275,6 +290,11 @@ def run(ctx, only_cases=None):
         cases += exhaustive(ctx.rng, claim, admit, thorough)
         cases += tick_cases(ctx.rng, 120 if thorough else 20, claim, admit)
         cases += gen_structured(ctx.rng, 80 if thorough else 8, tick_share=1.0)
+        # the same schedules across nodes: every caller on its own hybrid-storage node over one shared cache
+        ex = exhaustive(ctx.rng, claim, admit, thorough)
+        pool = [c for c in cases if c.get("world", "") == "" and not any(t["kind"] == "tick" for t in c["threads"])]
+        cases += [on_cluster(c) for c in (ex if thorough else ctx.rng.sample(ex, min(len(ex), 500)))]
+        cases += [on_cluster(c) for c in ctx.rng.sample(pool, min(len(pool), 3000 if thorough else 300))]
     outs = run_parallel(binary, cases, par=8)
     # ---- the property predicate evaluated by the harness on the real code's outputs
     nviol = {}
@@ -322,11 +342,13 @@ def run(ctx, only_cases=None):
     nontriv = set()
     stats = {"activators": 0, "revokers": 0, "ticks": 0, "faults_hit": 0, "successes": 0, "overlapping_runs": 0,
              "initial_state": {s: 0 for s in STATES}, "structured": 0, "malformed": 0, "ambiguous_timing_skipped": 0,
+             "cluster_world_runs": 0,
              "model_unmodelled_branch_skipped": unmodelled}
     for c, o in zip(cases, outs):
         stats["activators"] += sum(t["kind"] == "act" for t in c["threads"])
         stats["revokers"] += sum(t["kind"] == "rev" for t in c["threads"])
         stats["ticks"] += 1 if o["ticked"] else 0
+        stats["cluster_world_runs"] += 1 if c.get("world") == "cluster" else 0
         stats["faults_hit"] += sum(1 for t in o["threads"] if t.get("faulted"))
         ok = sum(1 for t, ti in zip(o["threads"], c["threads"]) if ti["kind"] == "act" and t["res"] == 0)
         stats["successes"] += ok
@@ -336,7 +358,7 @@ def run(ctx, only_cases=None):
         if overlapping(o):
             stats["overlapping_runs"] += 1
             if ok:
-                nontriv.add(json.dumps([c["threads"], o["sched"], c["state"], c["qmax"], c["pre"]], sort_keys=True))
+                nontriv.add(json.dumps([c["threads"], o["sched"], c["state"], c["qmax"], c["pre"], c.get("world", "")], sort_keys=True))
     samples = [{"case": cases[i], "observed": outs[i]} for i in (0, len(cases) // 2) if i < len(cases)]
     ctx.coverage.update({
         "evaluations": len(cases), "distinct_nontrivial": len(nontriv),
